@@ -25,6 +25,12 @@ pub fn mode_of(base: u64, family: Family, idx: u64) -> (Mode, u64) {
             let (cause, pos) = crate::families::c07x_point(idx % per);
             (Mode::Prefix(vec![cause, pos], seed), seed)
         }
+        Family::C04X => {
+            // request set (and schedule draws) from the set's seed; completion order and mix enumerated
+            let per = crate::families::C04X_PER_SET;
+            let seed = run_seed(base, family, idx / per);
+            (Mode::Prefix(crate::families::c04x_point(idx % per), seed), seed)
+        }
         Family::C16X => {
             // every point of the enumeration, round after round; each execution has its own schedule seed
             let seed = run_seed(base, family, idx);
